@@ -9,6 +9,8 @@ import (
 	"github.com/sarchlab/mgpusim/v4/amd/timing/wavefront"
 	verif "github.com/sarchlab/mgpusim/v4/zzverif"
 	rm "github.com/sarchlab/mgpusim/v4/zzverif/regmodel"
+	"github.com/sarchlab/mgpusim/v4/zzverif/abimodel"
+	"github.com/sarchlab/mgpusim/v4/amd/protocol"
 )
 
 const (
@@ -136,4 +138,24 @@ func VerifTimingRegRead() {
 	}
 	rm.DoRead(t.wf, m, k, idx, cnt, lane)
 	t.check(m, lane, "a read of "+rm.Tag(k, cnt))
+}
+
+// VerifTimingInitRegs (C08/C02): timing-mode register initialisation at
+// dispatch (WfDispatcherImpl.initWfInfo path) against the same ABI model.
+func VerifTimingInitRegs() {
+	c := abimodel.NewCase(verif.Param("queuePtr", 0) == 1)
+	cuObj := &ComputeUnit{}
+	sreg := NewSimpleRegisterFile(zzvSFileBytes, 0)
+	vreg := NewSimpleRegisterFile(zzvVFileBytes, 1024)
+	cuObj.SRegFile = sreg
+	cuObj.VRegFile = []RegisterFile{vreg}
+	wf := wavefront.NewWavefront(c.WF)
+	wf.WG = wavefront.NewWorkGroup(c.WG, nil)
+	d := &WfDispatcherImpl{cu: cuObj}
+	sOff, vOff := 408, 48
+	d.setWfInfo(wf, protocol.WfDispatchLocation{SIMDID: 0, SGPROffset: sOff, VGPROffset: vOff})
+	d.initRegisters(wf)
+	c.Check(wf.PC(), wf.EXEC(),
+		func(i int) uint32 { return rm.LE32(sreg.storage[sOff+4*i:]) },
+		func(lane, i int) uint32 { return rm.LE32(vreg.storage[lane*1024+vOff+4*i:]) }, "timing")
 }
